@@ -1,8 +1,11 @@
 import json,sys
 props={json.loads(l)["id"]:json.loads(l) for l in open('/verif/properties.jsonl')}
-def prompt(pid, n=2):
+ROUND4_HINT = """Earlier rounds of this exercise already produced changes of these kinds, so prefer something DIFFERENT in kind: caches / memoisation keyed on stale data, shared mutable state between copies, state left behind by a failed operation, a second use of the same handle after something was modified, dropped fields in one reader / writer class. Less used so far: a rarely used public entry point, operator form or keyword-argument combination of the same functionality; the interaction of two features that are each fine alone; boundary values of sizes and counts (0, 1, exactly at a limit, one past it); loops over conformers / atoms / bonds / records that skip or repeat one element under a specific condition; ordering assumptions (dict / set / directory order, sorted vs insertion order); integer / float / bytes / str conversions; resource handling (file modes, flush / close / lock order, partial writes); exit-code, signal and exception-type handling; defaults that change meaning when an argument is omitted vs passed explicitly."""
+
+
+def prompt(pid, n=2, wt=None, letters="a, b, ...", extra=""):
     p=props[pid]
-    wt=f"/tmp/seed-{pid}"
+    wt=wt or f"/tmp/seed-{pid}"
     return f"""You are helping to evaluate a verification effort for the open-source Python library SEDenmarkLab/molli (a cheminformatics toolbox). You get ONE semantic property of the library and a private scratch git worktree of its repository at {wt} (already created; Python: /venv/bin/python; the package imports as `molli`; run anything against the worktree with `cd {wt} && PYTHONPATH={wt} /venv/bin/python ...`). Work ONLY inside {wt} (and /tmp for scratch files you create yourself). Do not read or touch /repo, /verif or any other directory; there is no network.
 
 The property (it currently HOLDS on this tree):
@@ -17,9 +20,9 @@ Your task: produce {n} independent, REALISTIC code changes to the library (each 
   (b) the breakage needs something SPECIFIC to manifest — a particular interleaving or schedule, a crash or fault at a particular point, a multi-step sequence of operations, an unusual input or configuration, or two cooperating sites that each look fine alone — NOT something that ordinary single-call use would expose at once;
   (c) the changes are different in kind from each other (different mechanism / different clause of the property).
 Do not weaken or delete tests, do not add obviously malicious code, do not just `raise`; the change should look like something a maintainer could plausibly commit.
-Prefer changes in LESS OBVIOUS places than the central function the property names: helper functions it relies on, constructors and copy paths, caches and memoisation, argument normalisation (alternative argument forms such as index / label / object, defaults, None vs 0 vs empty), rarely taken branches, ordering of two statements, cleanup / exception paths, interactions between two public calls. Think about which clause of the property a reviewer would be least likely to test. Good hiding places: state left behind by an operation that FAILED; the second use of the same object / file / handle after something else was modified in between; objects shared between two containers or views; valid but unusual argument forms and boundary values (empty, zero, exactly-at-the-limit, duplicates, non-ASCII); behaviour that depends on the ORDER of two otherwise independent calls; code paths only reached through a subclass or through the convenience wrappers rather than the core function.
+Prefer changes in LESS OBVIOUS places than the central function the property names: helper functions it relies on, constructors and copy paths, caches and memoisation, argument normalisation (alternative argument forms such as index / label / object, defaults, None vs 0 vs empty), rarely taken branches, ordering of two statements, cleanup / exception paths, interactions between two public calls. Think about which clause of the property a reviewer would be least likely to test. {extra} Good hiding places: state left behind by an operation that FAILED; the second use of the same object / file / handle after something else was modified in between; objects shared between two containers or views; valid but unusual argument forms and boundary values (empty, zero, exactly-at-the-limit, duplicates, non-ASCII); behaviour that depends on the ORDER of two otherwise independent calls; code paths only reached through a subclass or through the convenience wrappers rather than the core function.
 
-For each change i in 1..{n} deliver, inside {wt}/_seed/{pid}-<letter>/ (letters a, b, ...):
+For each change i in 1..{n} deliver, inside {wt}/_seed/{pid}-<letter>/ (letters {letters}):
   - patch.diff : `git diff` of the library change only (relative to the worktree HEAD; must apply with `git apply` to a clean checkout);
   - demo.py    : a small standalone program that exits 0 on the unchanged tree and exits non-zero (printing what went wrong) with the change applied; it must run as `cd <tree> && PYTHONPATH=<tree> /venv/bin/python _seed/.../demo.py` style, i.e. import molli from the current tree, use temporary directories for files, set the environment variable MOLLI_HOME to a fresh temporary directory before importing molli, and finish within ~60 s;
   - meta.json  : {{"property": "{pid}", "title": "...", "what_it_breaks": "...which clause...", "needs_to_manifest": "...the specific sequence/input/schedule...", "files_changed": [...], "tests_still_pass": true}}.
@@ -27,4 +30,7 @@ Verify each yourself: with the patch applied demo.py fails and the test-suite re
 
 Reply with a short summary of each change (one paragraph each) and the verification output you observed."""
 if __name__=="__main__":
-    print(prompt(sys.argv[1], int(sys.argv[2]) if len(sys.argv)>2 else 2))
+    if len(sys.argv) > 2 and sys.argv[2] == "round4":
+        print(prompt(sys.argv[1], 2, wt=f"/tmp/seed4-{sys.argv[1]}", letters="g, h", extra=ROUND4_HINT))
+    else:
+        print(prompt(sys.argv[1], int(sys.argv[2]) if len(sys.argv)>2 else 2))
